@@ -382,6 +382,30 @@ class WorldGen:
             out.append(j)
         return out
 
+    def scalar_array(self, kind, j):
+        """A scalar argument given as an *array the caller holds* (broadcast against the vector array): a pooled operand."""
+        r = self.rng
+        d = self.desc[j]
+        if d.be != "np" or not d.shape or len(d.shape) != 1 or d.shape[0] == 0 or r.random() > 0.25:
+            return None
+        n = d.shape[0]
+        shape = r.choice(([n], [n], [1], []))
+        dt = r.choice(("f8", "f8", "f8", "f4", "i8"))
+        cnt = 1
+        for s_ in shape:
+            cnt *= s_
+        vals = [self.scalar(kind) for _ in range(cnt)]
+        vals = [v["v"] if isinstance(v, dict) else v for v in vals]
+        if dt == "i8":
+            vals = [int(v) or 2 for v in vals]
+        vals = [v if v != 0 else 1.5 for v in vals]
+        data = vals[0] if shape == [] else vals
+        key = ("sa", kind, tuple(shape), dt, tuple(vals))
+        k = self._tr_slots.get(key)
+        if k is None:
+            k = self._tr_slots[key] = self.add({"f": "vecsim.lit", "a": [{"$": "arr", "v": data, "dtype": dt}]}, be="other", scalar_array=True)
+        return P(k)
+
     def scalar(self, kind):
         r = self.rng
         if kind == "ang":
@@ -450,7 +474,7 @@ class WorldGen:
             if a in ("vsame", "vany", "v3", "v4", "v34", "v3b", "v34b"):
                 args.append(P(self.partner(j, a)))
             elif a in ("ang", "fac", "q"):
-                args.append(self.scalar(a))
+                args.append(self.scalar_array(a, j) or self.scalar(a))
             elif a in ("tol", "rtol", "atol"):
                 kw[{"tol": "tolerance"}.get(a, a)] = self.scalar("tol")
             elif a == "order":
@@ -571,7 +595,7 @@ class WorldGen:
         if which == "pow":
             return {"f": "operator.pow", "a": [P(j), r.choice((2, 3, 0.5))]}
         if which in ("mul", "truediv"):
-            s = self.scalar("fac")
+            s = self.scalar_array("fac", j) or self.scalar("fac")
             if which == "mul" and r.random() < 0.5:
                 return {"f": "operator.mul", "a": [s, P(j)]}
             return {"f": "operator." + which, "a": [P(j), s]}
@@ -584,7 +608,7 @@ class WorldGen:
             return {"f": "numpy." + r.choice(UFUNCS1), "a": [P(j)]}
         u = r.choice(UFUNCS2)
         if u in ("multiply", "true_divide", "power"):
-            return {"f": "numpy." + u, "a": [P(j), self.scalar("fac") if u != "power" else r.choice((2, 3))]}
+            return {"f": "numpy." + u, "a": [P(j), (self.scalar_array("fac", j) or self.scalar("fac")) if u != "power" else r.choice((2, 3))]}
         return {"f": "numpy." + u, "a": [P(j), P(self.partner(j, "vsame"))]}
 
     def op_npfunc(self, k, t, i, st):
